@@ -395,12 +395,43 @@ fn directed(out: &mut Out) {
     }
 }
 
+/// every combination of the last three frame types (what may stay pending depends on it: two
+/// Mode-AC frames = 22 bytes is the longest pending tail), every single cut point
+fn directed_endings(out: &mut Out, rng: &mut Rng) {
+    let tys = [0x31u8, 0x32, 0x33, 0x34];
+    for &a in &tys {
+        for &b in &tys {
+            for &c in &tys {
+                let mut fs = vec![Frame { ty: 0x33, body: gen_body(rng, 21, out) }];
+                for ty in [a, b, c] {
+                    let mut body = rng.bytes(body_len(ty).unwrap());
+                    for x in body.iter_mut() {
+                        if *x == ESC && rng.chance(1, 2) {
+                            *x = 0;
+                        }
+                    }
+                    fs.push(Frame { ty, body });
+                }
+                let stream = encode(&fs);
+                let info = stream_info(&stream);
+                check_stream(out, &fs, &stream, &info);
+                out.stat("directed:endings");
+                do_case(out, &[stream.clone()], &info);
+                for x in 1..stream.len() {
+                    do_case(out, &split_at(&stream, &[x]), &info);
+                }
+            }
+        }
+    }
+}
+
 pub fn run(out: &mut Out, rng: &mut Rng, thorough: bool) {
     let k = if thorough { 8 } else { 1 };
     directed(out);
+    directed_endings(out, rng);
 
     // (1) streams ≤ 120 bytes: ALL single and double cut points
-    for i in 0..14 * k {
+    for i in 0..24 * k {
         let max = if i % 3 == 0 { 60 } else { 120 };
         let fs = gen_frames(rng, out, max);
         let stream = encode(&fs);
@@ -423,6 +454,10 @@ pub fn run(out: &mut Out, rng: &mut Rng, thorough: bool) {
         do_case(out, &[stream.clone()], &info);
         // dribble
         do_case(out, &stream.iter().map(|&b| vec![b]).collect::<Vec<_>>(), &info);
+        // every single cut point
+        for a in 1..n {
+            do_case(out, &split_at(&stream, &[a]), &info);
+        }
         for sz in [2usize, 3, 5, 7, 11, 16, 22, 23, 24, 25, 46, 64] {
             do_case(out, &stream.chunks(sz).map(|c| c.to_vec()).collect::<Vec<_>>(), &info);
         }
